@@ -137,8 +137,11 @@ h_re1 = _h_re(1)   # two function objects with the same __name__, __qualname__ a
 h_re2 = _h_re(2)
 '''
 
-PLANS = {"quick": [("helper3", "helper", 3, 9000)], "thorough": [("helper3", "helper", 3, None),
-                                                                 ("helper4", "helper", 4, 150000)]}
+# (budget 4 of the helper family has > 13M derivation states since the table grew to 34 helpers: explored by seeded
+#  random walks of budgets 4 and 5 instead of exhaustively)
+PLANS = {"quick": [("helper3", "helper", 3, 9000)],
+         "thorough": [("helper3", "helper", 3, None), ("helperR4", "helper", 4, 80000, 60000),
+                      ("helperR5", "helper", 5, 60000, 40000)]}
 
 
 def run(prop, tier):
@@ -147,8 +150,13 @@ def run(prop, tier):
     rep = common.Report(prop, tier)
     progs_all = []
     fams = {}
-    for (name, fam, budget, keep) in PLANS[tier]:
-        progs, st = common.gen_programs(prop, name, fam, budget)
+    for entry in PLANS[tier]:
+        (name, fam, budget, keep) = entry[:4]
+        if len(entry) > 4:
+            progs, st = common.gen_programs(prop, name, fam, budget, simulate=f"num={max(1, entry[4] // 16)}",
+                                            extra_args=["-depth", "80", "-seed", str(common.seed() + 5)])
+        else:
+            progs, st = common.gen_programs(prop, name, fam, budget)
         rep.add_tlc(st)
         total = len(progs)
         progs = [p for p in progs if any(f.startswith("fn:h_") for f in common.term_features(p))
